@@ -276,6 +276,8 @@ def run(ctx):
     else:
         r3.fail(fg.qualname, "partition-args", fg.file, fg.lineno, "__Get_partitioned_groupElems", f"partition data ({', '.join(args)}) are not passed as (owned elements, owned nodes, rank, ghost elements) = {ps}")
 
+    ctx.attempt(merge_dedup_rule, ctx)
+    ctx.attempt(merge_single_rule, ctx)
     ownership_rule(ctx, fg)
     ghost_scope_rule(ctx, fg)
     table_scope_rule(ctx)
@@ -471,3 +473,139 @@ def owned_union_rule(ctx):
             r.ok(f"groups owning {lists} -> {want}")
         else:
             r.fail(f.qualname, "owned-union", f.file, f.lineno, "Mesh._Get_mpi_owned_nodes", f"groups owning {lists} give {got}, expected {want}: an interface node owned through two element types is listed twice, its dofs are counted twice in the owned-row energies / reactions")
+
+
+def merge_dedup_rule(ctx):
+    """R20.10: 'merging meshes with a node mapping is the inverse bookkeeping': Mesh.Merge is interpreted on three one-element
+    meshes sharing a corner (a point present in all THREE meshes: a stack of three coincident points, which needs the
+    transitive closure of the pair relation) and an edge point shared by two of them.  The coincidence search and the
+    component labelling are exact stand-ins (all pairs at distance 0; union-find).  Required: two nodes get the same merged
+    number iff they coincide; merged_coord[mapping[i][j]] == coord_i[j]; the merged mesh has one node per distinct point."""
+    from types import SimpleNamespace
+
+    from ..xeval import Interp, XObj, Opaque, XRaise, FuncInfo, ClassInfo
+    from ..xarray import XArray
+    from ..alg import Q
+    from .c03 import XCsr
+
+    repo = ctx.repo
+    mesh_ci = repo.cls(MESH)
+    f = mesh_ci.methods["Merge"]
+    r = ctx.rule("R20.10", "Mesh.Merge: nodes coincide <=> same merged number (a point shared by three meshes included), merged coordinates follow the mapping, one merged node per distinct point", min_instances=1)
+    r.instance(fn=f.qualname)
+    P = lambda x, y: (Q(x), Q(y), Q(0))
+    meshes_pts = [[P(0, 0), P(1, 0), P(0, 1)], [P(0, 0), P(0, 1), P(-1, 0)], [P(0, 0), P(-1, 0), P(0, -1)]]
+    created = {}
+
+    def mk_mesh(pts):
+        c = XArray((len(pts), 3), [v for p in pts for v in p])
+        g = SimpleNamespace(connect=XArray((1, 3), [0, 1, 2], "i"), Ncoords=len(pts))
+        return SimpleNamespace(coord=c, dict_groupElem={"TRI3": g}, groupElem=g, Nn=len(pts))
+
+    class Tree:
+        _xeval_open = True
+
+        def __init__(self, pts):
+            self.pts = XArray.from_nested(pts)
+
+        def query_pairs(self, tol, output_type=None):
+            n = self.pts.shape[0]
+            row = lambda i: tuple(self.pts[i, k] for k in range(3))
+            pairs = [(i, j) for i in range(n) for j in range(i + 1, n) if row(i) == row(j)]
+            return XArray((len(pairs), 2), [v for p in pairs for v in p], "i")
+
+    def components(graph, directed=False, **k):
+        n = graph.shape[0]
+        parent = list(range(n))
+
+        def find(a):
+            while parent[a] != a:
+                a = parent[a]
+            return a
+
+        for (i, j) in graph.entries:
+            a, b = find(i), find(j)
+            if a != b:
+                parent[max(a, b)] = min(a, b)
+        roots = sorted({find(i) for i in range(n)})
+        return len(roots), XArray((n,), [roots.index(find(i)) for i in range(n)], "i")
+
+    def hook(fn, args, kwargs):
+        if isinstance(fn, Opaque):
+            tail = fn.tag.split(".")[-1]
+            if tail == "cKDTree":
+                return Tree(args[0])
+            if tail == "csr_matrix":
+                kwargs = {k: v for k, v in kwargs.items() if k != "dtype"}
+                return XCsr(*args, **kwargs)
+            if tail == "connected_components":
+                return components(*args, **kwargs)
+        fi = fn if isinstance(fn, FuncInfo) else getattr(fn, "finfo", None)
+        if isinstance(fi, FuncInfo) and fi.name == "Create":
+            created[str(args[0])] = (XArray.from_nested(args[1]), XArray.from_nested(args[2]))
+            return SimpleNamespace(elemType=args[0])
+        if isinstance(fn, ClassInfo) and fn is mesh_ci:
+            return SimpleNamespace(merged=True)
+        return NotImplemented
+
+    I = Interp(repo, max_steps=20_000_000)
+    I.call_hook = hook
+    ms = [mk_mesh(p) for p in meshes_pts]
+    try:
+        # (the removal of duplicated elements is another step of Merge, not followed here)
+        out = I.call_function(f, [ms], {"return_mapping": True, "constructUniqueElements": False})
+    except XRaise as e:
+        r.fail(f.qualname, "merge-dedup", f.file, f.lineno, "Mesh.Merge", f"three triangles around a common corner: raises {e}")
+        return
+    mapping = [[int(x) for x in XArray.from_nested(m).data] for m in out[1]]
+    conn, newc = created.get("TRI3", (None, None))
+    bad = None
+    flat = [(i, j) for i in range(3) for j in range(3)]
+    for a in range(len(flat)):
+        for b in range(a + 1, len(flat)):
+            (i, j), (k, l) = flat[a], flat[b]
+            same_pt = meshes_pts[i][j] == meshes_pts[k][l]
+            same_nb = mapping[i][j] == mapping[k][l]
+            if bad is None and same_pt != same_nb:
+                bad = f"node {j} of mesh {i} and node {l} of mesh {k} {'coincide' if same_pt else 'are distinct points'} but get merged numbers {mapping[i][j]} and {mapping[k][l]}"
+    distinct = len({p for m in meshes_pts for p in m})
+    if bad is None and newc is not None:
+        if newc.shape[0] != distinct:
+            bad = f"the merged mesh has {newc.shape[0]} nodes for {distinct} distinct points"
+        else:
+            for i in range(3):
+                for j in range(3):
+                    if bad is None and tuple(newc[mapping[i][j], k] for k in range(3)) != meshes_pts[i][j]:
+                        bad = f"merged coordinates of mapping[{i}][{j}] are not those of the node"
+    if bad:
+        r.fail(f.qualname, "merge-dedup", f.file, f.lineno, "Mesh.Merge", f"three triangles sharing the corner (0, 0) (a point present in all three meshes) and pairwise an edge point: {bad}: a node shared by three or more meshes is split into several merged nodes (the pair relation was not closed transitively); merging the parts of a partition does not give the global mesh back")
+    else:
+        r.ok("three meshes around a shared corner: one merged node per distinct point, mapping consistent")
+
+
+def merge_single_rule(ctx):
+    """R20.11: 'merging meshes with a node mapping': a list holding ONE mesh is returned as it is, with the identity mapping
+    over ITS nodes -- also when that mesh mixes element types (it then has no single main group).  Mesh.Merge is interpreted
+    on a mesh object with two main groups (the real Mesh.groupElem property raises AmbiguousGroupError there)."""
+    from types import SimpleNamespace
+
+    from ..xeval import Interp, XObj, XRaise
+    from ..xarray import XArray
+
+    repo = ctx.repo
+    mesh_ci = repo.cls(MESH)
+    f = mesh_ci.methods["Merge"]
+    r = ctx.rule("R20.11", "Mesh.Merge of a single mesh mixing element types returns the mesh and the identity mapping over its nodes", min_instances=1)
+    r.instance(fn=f.qualname)
+    groups = [SimpleNamespace(Ncoords=7, dim=2, Ne=2), SimpleNamespace(Ncoords=7, dim=2, Ne=1)]
+    mesh = XObj(mesh_ci, {mesh_ci.mangle("__dict_groupElem"): {"QUAD4": groups[0], "TRI3": groups[1]}, mesh_ci.mangle("__dim"): 2, "Get_list_groupElem": lambda d=None: list(groups)})
+    try:
+        out = Interp(repo).call_function(f, [[mesh]], {"return_mapping": True})
+    except XRaise as e:
+        r.fail(f.qualname, "merge-single-mixed", f.file, f.lineno, "Mesh.Merge", f"Merge([mesh], return_mapping=True) on a mesh with QUAD4 + TRI3 main groups raises {e}: the node count is asked of `mesh.groupElem`, which a mixed mesh does not have")
+        return
+    mp = XArray.from_nested(out[1][0])
+    if out[0] is mesh and [int(x) for x in mp.data] == list(range(7)):
+        r.ok("single mixed mesh: returned unchanged with the identity mapping")
+    else:
+        r.fail(f.qualname, "merge-single-mixed", f.file, f.lineno, "Mesh.Merge", f"single mixed mesh: mapping {list(mp.data)} is not the identity over its 7 nodes")
